@@ -77,6 +77,15 @@ int main(void)
 		o[3].values[i]->section->comment = NULL;
 	}
 	root->comment = vin_has_comment ? heap_str("r") : NULL;
+	{
+		/* a context that was created and never parsed into has no file name (its list defaults were still scanned) */
+		V_IN_BOOL(vin_never_parsed);
+
+		if (vin_never_parsed) {
+			free(root->filename);
+			root->filename = NULL;
+		}
+	}
 
 	rc = cfg_free(root);
 	V_ASSERT(rc == CFG_SUCCESS, "[C07] freeing a context succeeds");
@@ -91,7 +100,7 @@ int main(void)
 		}
 		V_ASSERT(nb == 1 && na == (vin_ptr_null ? 0 : 1), "[C07] the release function receives each stored pointer exactly once");
 	}
-	V_ASSERT(n_destroy == 1, "[C07] freeing the root context tears the scanner down once");
+	V_ASSERT(n_destroy == 1, "[C07] freeing the root context tears the scanner down once, whether or not it was ever parsed into (initialisation scans list defaults)");
 	/* CBMC: --memory-leak-check proves that nothing allocated above is still allocated here,
 	 * the pointer checks prove that nothing was freed twice or used after its release */
 	V_WITNESS("end of harness");
